@@ -133,3 +133,11 @@ package samlidp
 //@ requires[cfg] s: serverConfigured(s)
 //@ requires[cfg] r: r != nil && w != nil
 //@ assert@call[C19] Delete #each (st Store, key string) addresses_the_named_record: st == s.Store && key == resourceKey("/shortcuts/", r)
+//@ contract (*Server).HandleGetService
+//@ requires[cfg] s: serverConfigured(s)
+//@ requires[cfg] r: r != nil && w != nil
+//@ assert@call[C19] Get #each (st Store, key string, v interface{}) addresses_the_named_record: st == s.Store && key == resourceKey("/services/", r)
+//@ contract (*Server).HandleGetShortcut
+//@ requires[cfg] s: serverConfigured(s)
+//@ requires[cfg] r: r != nil && w != nil
+//@ assert@call[C19] Get #each (st Store, key string, v interface{}) addresses_the_named_record: st == s.Store && key == resourceKey("/shortcuts/", r)
